@@ -15,6 +15,7 @@ def resolve (N : List (String × Nat)) (R : List (String × String)) (x : String
   match dget N x with
   | some i => .ok (some i)
   | none =>
+    if x = "" then .ok none else
     match (R.find? (fun p => decide (p.2 = x))).map (·.1) with
     | none => .ok none
     | some c =>
@@ -50,61 +51,64 @@ theorem resolveAll_eq (s : Sys π ν) (l : List String) : s.resolveAll l = resol
 
 end
 
-/-- the key under which `resolve` found node `q`: `x` itself or the owner of rail `x` -/
+/-- the key under which `resolve` found node `q`: `x` itself or the owner of the (non-empty) rail `x` -/
 theorem resolve_some {N : List (String × Nat)} {R : List (String × String)} {x : String} {q : Nat}
     (h : resolve N R x = .ok (some q)) :
     dget N x = some q ∨
-    (dget N x = none ∧ ∃ o, R.find? (fun p => decide (p.2 = x)) = some (o, x) ∧ dget N o = some q) := by
+    (dget N x = none ∧ x ≠ "" ∧ ∃ o, R.find? (fun p => decide (p.2 = x)) = some (o, x) ∧ dget N o = some q) := by
   unfold resolve at h
   cases h1 : dget N x with
   | some i => simp only [h1, Except.ok.injEq, Option.some.injEq] at h; exact Or.inl (by rw [h])
   | none =>
     simp only [h1] at h
-    cases h2 : R.find? (fun p => decide (p.2 = x)) with
-    | none => simp [h2] at h
-    | some p =>
-      simp only [h2, Option.map_some] at h
-      have hp : p.2 = x := by simpa using List.find?_some h2
-      cases h3 : dget N p.1 with
-      | none => simp [h3] at h
-      | some i =>
-        simp only [h3, Except.ok.injEq, Option.some.injEq] at h
-        refine Or.inr ⟨rfl, p.1, ?_, by rw [h3, h]⟩
-        rw [← hp]
+    by_cases hx0 : x = ""
+    · simp [hx0] at h
+    · simp only [hx0, if_false] at h
+      cases h2 : R.find? (fun p => decide (p.2 = x)) with
+      | none => simp [h2] at h
+      | some p =>
+        simp only [h2, Option.map_some] at h
+        have hp : p.2 = x := by simpa using List.find?_some h2
+        cases h3 : dget N p.1 with
+        | none => simp [h3] at h
+        | some i =>
+          simp only [h3, Except.ok.injEq, Option.some.injEq] at h
+          refine Or.inr ⟨rfl, hx0, p.1, ?_, by rw [h3, h]⟩
+          rw [← hp]
 
 theorem resolve_of_name {N : List (String × Nat)} {R : List (String × String)} {x : String} {q : Nat}
     (h : dget N x = some q) : resolve N R x = .ok (some q) := by
   unfold resolve; rw [h]
 
 theorem resolve_of_rail {N : List (String × Nat)} {R : List (String × String)} {x o : String} {q : Nat}
-    (h1 : dget N x = none) (h2 : R.find? (fun p => decide (p.2 = x)) = some (o, x)) (h3 : dget N o = some q) :
-    resolve N R x = .ok (some q) := by
-  unfold resolve; simp [h1, h2, h3]
+    (h1 : dget N x = none) (h0 : x ≠ "") (h2 : R.find? (fun p => decide (p.2 = x)) = some (o, x))
+    (h3 : dget N o = some q) : resolve N R x = .ok (some q) := by
+  unfold resolve; simp [h1, h0, h2, h3]
 
 /-- appending one entry to both registries does not change what an already resolving name resolves to -/
 theorem resolve_append {N : List (String × Nat)} {R : List (String × String)} {x : String} {q : Nat}
     (n' : String) (i' : Nat) (r' : String) (h : resolve N R x = .ok (some q)) (hne : dget N x = none → x ≠ n') :
     resolve (N ++ [(n', i')]) (R ++ [(n', r')]) x = .ok (some q) := by
-  rcases resolve_some h with h1 | ⟨h1, o, h2, h3⟩
+  rcases resolve_some h with h1 | ⟨h1, h0, o, h2, h3⟩
   · exact resolve_of_name (by rw [dget_append_of_mem (dget_some_key h1), h1])
-  · apply resolve_of_rail (o := o)
+  · apply resolve_of_rail (o := o) _ h0
+    · exact find?_append_of_find? h2
+    · rw [dget_append_of_mem (dget_some_key h3), h3]
     · rw [dget_append_of_not_mem (dget_eq_none_iff.mp h1)]
       have : ¬ n' = x := fun e => hne h1 e.symm
       simp [dget, this]
-    · exact find?_append_of_find? h2
-    · rw [dget_append_of_mem (dget_some_key h3), h3]
 
 /-- dropping entries (by key) from both registries does not change what a name resolves to, as long as the
     entry it was found under is kept -/
 theorem resolve_filter {N : List (String × Nat)} {R : List (String × String)} {x : String} {q : Nat}
     (keep : String → Bool) (h : resolve N R x = .ok (some q)) (hk : ∀ k, dget N k = some q → keep k = true) :
     resolve (N.filter fun p => keep p.1) (R.filter fun p => keep p.1) x = .ok (some q) := by
-  rcases resolve_some h with h1 | ⟨h1, o, h2, h3⟩
+  rcases resolve_some h with h1 | ⟨h1, h0, o, h2, h3⟩
   · exact resolve_of_name (by rw [dget_filter_key, hk x h1]; simpa using h1)
-  · apply resolve_of_rail (o := o)
-    · rw [dget_filter_key]; split <;> simp [h1]
+  · apply resolve_of_rail (o := o) _ h0
     · exact find?_filter_of_find? h2 (hk o h3)
     · rw [dget_filter_key, hk o h3]; simpa using h3
+    · rw [dget_filter_key]; split <;> simp [h1]
 
 theorem resolveList_congr {N N' : List (String × Nat)} {R R' : List (String × String)} {l : List String}
     {res : List (Option Nat)} (h : resolveList N R l = .ok res)
